@@ -3,6 +3,7 @@ package h
 import (
 	"encoding/json"
 	"fmt"
+	"os"
 	"math/big"
 	"math/rand"
 
@@ -105,6 +106,9 @@ func runC20(ctx *WorkCtx, idx int) {
 		panic("c20 genesis: " + err.Error())
 	}
 	opts := NodeOpts{StakePeriod: 100000, KeepLastStates: 2}
+	if d, err := os.MkdirTemp(os.Getenv("VERIF_TMP"), "app"); err == nil {
+		opts.AppDir = d // app DB on disk so that Sim.Restart() is a real restart (removed by Finish)
+	}
 	s := NewSim("C20", ctx.Seed, idx, gen, w, opts, r)
 	defer s.Finish()
 	if s.Dead {
@@ -218,6 +222,9 @@ func runC20(ctx *WorkCtx, idx int) {
 	verCount := len(s.N.App.UpdateVersions())
 	comm, _ := json.Marshal(s.Post.Commission)
 	for h := first; h <= last+1 && !s.Dead && !s.Stopped; h++ {
+		if r.Intn(10) == 0 {
+			s.Restart() // pending votes must survive a restart, duplicates must still be refused (lead: added after seed C20-m2)
+		}
 		req := &BlockReq{Height: h, Time: s.T.Add(s.Step)}
 		c := byTarget[h]
 		req.Votes = s.VotesFor(h, func(pk types.Pubkey) bool {
@@ -234,12 +241,18 @@ func runC20(ctx *WorkCtx, idx int) {
 		// votes for the case whose target is 3 blocks ahead are sent now
 		var metas []TxMeta
 		var lazies []lazyTx
+		var lateDup *c20Case
 		var expectReject []bool
 		type vref struct {
 			c *c20Case
 			i int
 		}
 		var refs []*vref
+		for _, ahead := range []int64{1, 2} {
+			if vc2 := byTarget[h+ahead]; vc2 != nil && lateDup == nil && r.Intn(2) == 0 {
+				lateDup = vc2
+			}
+		}
 		if vc := byTarget[h+3]; vc != nil {
 			for i := 0; i < n; i++ {
 				if p, ok := vc.votes[i]; ok {
@@ -264,6 +277,18 @@ func runC20(ctx *WorkCtx, idx int) {
 				metas = append(metas, TxMeta{Type: 0x21, Kind: "past-vote"})
 				expectReject = append(expectReject, true)
 				refs = append(refs, nil)
+			}
+		}
+		if lateDup != nil {
+			for i, p := range lateDup.votes {
+				if kind == "halt" && p == 2 {
+					continue
+				}
+				lazies = append(lazies, voteTx(lateDup, i, p))
+				metas = append(metas, TxMeta{Type: 0x21, Kind: "duplicate-vote-in-a-later-block"})
+				expectReject = append(expectReject, true)
+				refs = append(refs, nil)
+				break
 			}
 		}
 		res := s.RunBlock(req, nil, func(i int) ([]byte, TxMeta, bool) {
